@@ -506,6 +506,46 @@ func (env *Env) callExpr(e *Expr) (Val, error) {
 			}
 		}
 		return Val{}, fmt.Errorf("addr: no field %s", e.Args[0].Name)
+	case "conforms":
+		// conforms(f, SpecName)
+		if len(e.Args) != 2 || e.Args[1].K != EIdent {
+			return Val{}, fmt.Errorf("conforms(f, SpecName)")
+		}
+		fv, err := env.expr(e.Args[0])
+		if err != nil {
+			return Val{}, err
+		}
+		p := tr.declareFun("conf/"+e.Args[1].Name, []string{"Int"}, "Bool")
+		return Val{K: VBool, T: "(" + p + " " + fv.T + ")"}, nil
+	case "id":
+		if err := need(1); err != nil {
+			return Val{}, err
+		}
+		if args[0].ID == "" {
+			return Val{}, fmt.Errorf("id(%s): value has no interface identity", e.Args[0])
+		}
+		return Val{K: VIface, T: args[0].ID}, nil
+	case "cast":
+		// cast(x, "pkg/path.Type"): view a reference as a pointer to the named struct type
+		if len(e.Args) != 2 || e.Args[1].K != EStr {
+			return Val{}, fmt.Errorf("cast(x, \"pkg/path.Type\")")
+		}
+		x, err := env.expr(e.Args[0])
+		if err != nil {
+			return Val{}, err
+		}
+		t := tr.eng.namedType(e.Args[1].Str)
+		if t == nil {
+			return Val{}, fmt.Errorf("cast: unknown type %s", e.Args[1].Str)
+		}
+		return Val{K: VRef, T: x.T, Typ: types.NewPointer(t)}, nil
+	case "ifaceRef":
+		// ifaceRef(v): the pointer boxed in interface value v (axiomatised at MakeInterface sites)
+		if err := need(1); err != nil {
+			return Val{}, err
+		}
+		fn := tr.declareFun("ifaceref", []string{"Int"}, "Int")
+		return Val{K: VInt, T: "(" + fn + " " + args[0].T + ")"}, nil
 	case "ref":
 		// ref(x): the address/identity of a pointer-like value as Int
 		if err := need(1); err != nil {
@@ -614,24 +654,9 @@ func (f *Frame) envAtWith(b *ssa.BasicBlock, st *State) *Env {
 		env.vars[ai.a.Comment] = f.tr.load(st, pt, ai.ref)
 		env.vars["addr_"+ai.a.Comment] = Val{K: VRef, T: ai.ref, Typ: ai.a.Type()}
 	}
-	// phis by source name; nearer dominators override
-	var chain []*ssa.BasicBlock
-	for x := b; x != nil; x = x.Idom() {
-		chain = append(chain, x)
-	}
-	for i := len(chain) - 1; i >= 0; i-- {
-		for _, in := range chain[i].Instrs {
-			phi, ok := in.(*ssa.Phi)
-			if !ok {
-				break
-			}
-			if phi.Comment != "" {
-				if v, ok := f.vals[phi]; ok {
-					env.vars[phi.Comment] = v
-				}
-			}
-		}
-	}
+	// source-level names: header phis (merged value of a variable at a join) and, with ssa.GlobalDebug, DebugRefs of
+	// register values; walking the dominator chain from the entry down to b, the latest binding wins
+	f.bindDebugNames(env, b)
 	return env
 }
 
@@ -678,4 +703,43 @@ func substExpr(e *Expr, ps []QVar, args []*Expr) *Expr {
 		}
 	}
 	return &n
+}
+
+func (f *Frame) bindDebugNames(env *Env, b *ssa.BasicBlock) {
+	var chain []*ssa.BasicBlock
+	for x := b; x != nil; x = x.Idom() {
+		chain = append(chain, x)
+	}
+	for i := len(chain) - 1; i >= 0; i-- {
+		blk := chain[i]
+		for _, in := range blk.Instrs {
+			if blk == b && f.curBlock == b && in == f.curIn {
+				break
+			}
+			if phi, ok := in.(*ssa.Phi); ok {
+				if phi.Comment != "" {
+					if v, ok := f.vals[phi]; ok {
+						env.vars[phi.Comment] = v
+					}
+				}
+				continue
+			}
+			dr, ok := in.(*ssa.DebugRef)
+			if !ok || dr.IsAddr {
+				continue
+			}
+			obj := dr.Object()
+			if obj == nil {
+				continue
+			}
+			if _, isVar := obj.(*types.Var); !isVar {
+				continue
+			}
+			if v, ok := f.vals[dr.X]; ok {
+				env.vars[obj.Name()] = v
+			} else if c, ok := dr.X.(*ssa.Const); ok {
+				env.vars[obj.Name()] = f.tr.constVal(c)
+			}
+		}
+	}
 }
